@@ -24,6 +24,7 @@ type Config struct {
 	TimeoutMs     int
 	Workers       int
 	MaxPaths      int
+	MaxPathsPerHarness int // 0 = no per-harness budget
 	WriteMonitor  bool // C20: report stores into pre-existing objects
 	ArbNarrow     bool // vrt.Arbitrary: collections of at most one item
 	Witnesses     bool // keep the inputs of one completed path per harness (conformance replay)
@@ -33,7 +34,7 @@ type Config struct {
 }
 
 func DefaultConfig() Config {
-	return Config{Unwind: 80, MaxDepth: 200, MaxSteps: 2000000, ConcretizeMax: 64, TimeoutMs: 20000, Workers: 8, MaxPaths: 200000}
+	return Config{Unwind: 80, MaxDepth: 200, MaxSteps: 2000000, ConcretizeMax: 64, TimeoutMs: 20000, Workers: 8, MaxPaths: 1000000}
 }
 
 type intrFn func(p *Path, args []Value, site ssa.Instruction) Value
@@ -870,6 +871,14 @@ func (e *Engine) Explore(harnesses []Task, st *Stats) (map[string]*HarnessResult
 				}
 				for _, r := range res.Required {
 					hr.Required[r] = true
+				}
+				if e.Cfg.MaxPathsPerHarness > 0 && hr.Paths >= e.Cfg.MaxPathsPerHarness {
+					// this harness has used its budget: what is left of it is not explored
+					// (reported by the driver; never counted as decided)
+					if len(more) > 0 {
+						hr.Truncated = true
+					}
+					more = nil
 				}
 				for _, m := range more {
 					work = append(work, Task{Harness: t.Harness, Fn: t.Fn, Prefix: m})
